@@ -49,6 +49,13 @@ def resolved : Val → Val
   | stringer (ptr v) _ => v
   | v => v
 
+/-- the resolver's `for current.Type() == typeOfValuePtr` loop: a `*Value` holding a `*Value`
+    again (loop variable of a `for` over a list literal) is unpacked down to its content; the
+    innermost box's safe flag is the one kept -/
+def unboxAll : Val → Bool → Val × Bool
+  | boxed inner s, _ => unboxAll inner s
+  | v, s => (v, s)
+
 /-- what reflection sees: pointers followed and a named type's methods forgotten -/
 def reflected (v : Val) : Val :=
   match v.resolved with
